@@ -193,8 +193,76 @@ def probes(ctx):
     ctx.inline('probe', p)
 
 
+def instrumented_parser(dialect, fired):
+    """A parser of the given dialect whose grammar actions count their own invocations (harness-side subclass: every
+    p_* rule is wrapped, keeping the docstring and the source line PLY orders the rules by)."""
+    from pysmi.parser.smi import parserFactory
+    from pysmi.parser import dialect as dl
+    base = parserFactory(**getattr(dl, dialect))
+    attrs = {}
+    for name in dir(base):
+        if not name.startswith('p_') or name == 'p_error':
+            continue
+        orig = getattr(base, name)
+        func = getattr(orig, '__func__', orig)
+
+        def make(func=func, name=name):
+            def wrapper(self, p):
+                fired[name] = fired.get(name, 0) + 1
+                return func(self, p)
+            wrapper.__doc__ = func.__doc__
+            wrapper.__name__ = name
+            wrapper.co_firstlineno = func.__code__.co_firstlineno
+            return wrapper
+        attrs[name] = make()
+    return type('Counting' + base.__name__, (base,), attrs)()
+
+
+def production_coverage(ctx):
+    """Which grammar actions the generated texts reach (reported in the evidence; rules never fired are listed)."""
+    def fn(rec, shard, nshards, seed, tier, extra):
+        import hypothesis
+        from hypothesis import settings, given, HealthCheck
+        fired = {}
+        parsers = dict((d, instrumented_parser(d, fired)) for d in ('smiV2', 'smiV1Relaxed'))
+        allrules = sorted(n for n in dir(parsers['smiV1Relaxed']) if n.startswith('p_') and n != 'p_error')
+        texts = []
+
+        @hypothesis.seed(seed * 131 + shard)
+        @settings(max_examples=12 if tier == 'quick' else 60, database=None, deadline=None,
+                  suppress_health_check=list(HealthCheck), phases=[hypothesis.Phase.generate])
+        @given(mibgen.module_sets(PROFILE))
+        def collect(ms):
+            for m in ms['modules']:
+                texts.append((m['dialect'], mibgen.render_simple(m)))
+        collect()
+        if shard == 0:
+            # the base SMI modules declare types named like SMI keywords (Integer32 ::= ..., typeSMI rules)
+            from vlib import fixtures
+            for n in fixtures.available():
+                texts.append(('v1', fixtures.text(n)))
+        for dialect, text in texts:
+            p = parsers['smiV2' if dialect == 'v2' and len(text) % 2 else 'smiV1Relaxed']
+            p.reset()
+            p.parse(text)
+            rec.evaluated()
+        for n in allrules:
+            rec.count('rule.%s' % n, fired.get(n, 0))
+        return None
+    ctx.parallel('productions', fn)
+    rules = dict((k.split('rule.', 1)[1], v) for k, v in ctx.counters.items() if k.startswith('productions.rule.'))
+    for k in list(ctx.counters):
+        if k.startswith('productions.rule.'):
+            del ctx.counters[k]
+    never = sorted(k for k, v in rules.items() if not v)
+    ctx.extra_cov['grammar_actions'] = {'total': len(rules), 'fired': len(rules) - len(never), 'never_fired': never}
+    ctx.counters['productions.grammar-actions-fired'] = len(rules) - len(never)
+    ctx.counters['productions.grammar-actions-total'] = len(rules)
+
+
 def run(ctx):
     ctx.search('model', cases, prop, ctx.pick(2400, 60000))
+    production_coverage(ctx)
     probes(ctx)
 
 
